@@ -117,6 +117,8 @@ static inline double verif_pow(double base, double e)
   __CPROVER_assume(!(base >= 1.0 && e >= 0.0) || r >= 1.0);
   return r;
 }
+/* fabs: exact (sign bit cleared) */
+static inline double verif_fabs(double x) { return (x != x) ? x : (x < 0.0 ? -x : (x == 0.0 ? 0.0 : x)); }
 static inline double verif_log(double x)
 {
   double r = __CPROVER_uninterpreted_log(x);
